@@ -6,6 +6,7 @@
 #include "Sprite/TilesetLoader.h"
 #include "Stream/MemoryReader.h"
 #include "Stream/FileReader.h"
+#include "Stream/FileWriter.h"
 #include "Stream/SliceReader.h"
 #include "Stream/DynamicMemoryWriter.h"
 #include <memory>
@@ -83,6 +84,26 @@ void pictureCase(Ctx& ctx, uint32_t h, int pal, int pix)
 		if (customOf[td] != expectBytes) {
 			std::size_t i = 0; while (i < customOf[td].size() && i < expectBytes.size() && customOf[td][i] == expectBytes[i]) ++i;
 			bad("custom-bytes-differ-from-format-description", k2 + ": first difference at byte " + std::to_string(i) + " (lengths " + std::to_string(customOf[td].size()) + "/" + std::to_string(expectBytes.size()) + ")"); return;
+		}
+		{
+			// the overload taking a temporary writer, onto a file that already holds longer content; loaded back through a file reader
+			std::string path = ctx.scratch() + "/ts_rvalue.bin";
+			mc::writeFile(path, std::vector<uint8_t>(expectBytes.size() + 3000, 0xEE));
+			auto orv = mc::guarded([&] { Tileset::WriteCustomTileset(Stream::FileWriter(path), src); });
+			ctx.transition();
+			if (orv.cls != 'R') { bad("save-custom-through-temporary-writer-refused", k2 + ": " + orv.what); return; }
+			if (mc::readFile(path) != expectBytes) { bad("custom-bytes-through-temporary-writer-differ", k2); return; }
+			BitmapFile viaFile;
+			auto ofr = mc::guarded([&] { Stream::FileReader fr(path); viaFile = Tileset::ReadTileset(fr); });
+			ctx.transition();
+			ref::RPicture seenF; std::string whyF;
+			if (ofr.cls != 'R' || !visual(viaFile, seenF, whyF) || !samePicture(seenF, p)) { bad("load-custom-through-file-reader-differs", k2 + ": " + ofr.what + whyF); return; }
+			BitmapFile viaTemp;
+			auto otr = mc::guarded([&] { viaTemp = Tileset::ReadTileset(Stream::FileReader(path)); });   // the overload taking a temporary reader
+			ctx.transition();
+			ref::RPicture seenT; std::string whyT;
+			if (otr.cls != 'R' || !visual(viaTemp, seenT, whyT) || !samePicture(seenT, p)) { bad("load-custom-through-temporary-reader-differs", k2 + ": " + otr.what + whyT); return; }
+			ctx.count("pictures/through-temporary-writer-and-file-reader");
 		}
 		BitmapFile back;
 		auto ol = mc::guarded([&] { back = loadFrom(customOf[td]); });
